@@ -476,7 +476,7 @@ def gen_sqw_v(facts):
     units = '[' + '; '.join(cq(u if u is not None else 'none') for u in facts['_DEFAULT_PIX_ROW_UNITS']) + ']'
     return ('(* GENERATED on every run from /repo/src/scippneutron/io/sqw/_build.py (sha256 %s) *)\n'
             'From Coq Require Import String List.\nFrom Verif.SQW Require Import Bytes Format Model.\n'
-            'Import ListNotations.\nOpen Scope string_scope.\n'
+            'Import ListNotations.\nLocal Open Scope string_scope.\n'
             '(* the tuple `order` in _to_canonical_block_order *)\nDefinition src_block_order : list bname := %s.\n'
             '(* _DEFAULT_PIX_ROWS / _DEFAULT_PIX_ROW_UNITS *)\nDefinition src_pix_rows : list string := %s.\n'
             'Definition src_pix_row_units : list string := %s.\n'
